@@ -91,6 +91,9 @@ class StubSoup(StubTag):
     def new_tag(self, name, **attrs):
         return StubTag(name, attrs)
 
+    def prettify(self, *a, **kw):
+        return ("serialised", self)
+
     @property
     def body(self):
         return self.find("body")
